@@ -29,6 +29,8 @@ def one(d):
     try:
         run("git reset -q --hard && git clean -fdq", cwd=wt)
         shutil.copy(os.path.join(d, "demo_test.go.txt"), wt + "/seeded_demo_test.go")
+        if os.path.exists(os.path.join(d, "demo_helper_test.go.txt")):
+            shutil.copy(os.path.join(d, "demo_helper_test.go.txt"), wt + "/seeded_demo_helper_test.go")
         rc, out = run("go test %s -vet=off -count=1 -run TestSeededDemo ." % race, cwd=wt)
         if rc != 0: return sid, "demo fails WITHOUT the change: " + out[-300:].replace("\n", " | ")
         rc, _ = run("git apply %s" % os.path.join(d, "patch.diff"), cwd=wt)
@@ -41,6 +43,7 @@ def one(d):
         rc, out = run("go test %s -vet=off -count=1 -run TestSeededDemo ." % race, cwd=wt)
         if rc == 0: return sid, "demo PASSES with the change (%s apply): neutralised or misplaced" % how
         os.remove(wt + "/seeded_demo_test.go")
+        if os.path.exists(wt + "/seeded_demo_helper_test.go"): os.remove(wt + "/seeded_demo_helper_test.go")
         rc, out = run("go test -vet=off -count=1 ./...", cwd=wt)
         if rc != 0: return sid, "existing suite fails with the change"
         m["verified_on_repo_head"] = head; json.dump(m, open(mp, "w"), indent=1)
